@@ -751,3 +751,57 @@ def r12_find_mut(text):
             f'{ind}if let Some({x}_ix) = {x}_pos {{\n{ind}    let {x} = &mut {e}[{x}_ix];\n')
     inner = (f'{ind}    if {cond2} ' if cond2 else f'{ind}    ') + body + f'\n{ind}}}'
     return text[:m.start()] + head + inner + text[cb + 1:], 1
+
+
+def r19_entry_or_insert_with(text):
+    """`M.entry(K).or_insert_with(|| EXPR);`  ->  `if !M.contains_key(&(K)) { M.insert(K, EXPR); }`  (EXPR is evaluated only when the key is absent,
+    exactly like the closure; the returned `&mut V` is discarded by the `;`)."""
+    cnt = 0
+    pat = re.compile(r'(\w+(?:\.\w+)*)\.entry\(')
+    pos = 0
+    while True:
+        m = pat.search(text, pos)
+        if not m:
+            break
+        op = m.end() - 1
+        cp = match_bracket(text, op, '(', ')')
+        mm = re.compile(r'\s*\.or_insert_with\(\s*\|\|\s*').match(text, cp + 1)
+        if not mm:
+            pos = cp
+            continue
+        op2 = text.index('(', cp + 1)
+        cp2 = match_bracket(text, op2, '(', ')')
+        expr = text[mm.end():cp2].strip()
+        me = re.compile(r'\s*;').match(text, cp2 + 1)
+        if not me:
+            pos = cp2
+            continue
+        key = text[op + 1:cp].strip()
+        mname = m.group(1)
+        new = 'if !%s.contains_key(&(%s)) { %s.insert(%s, %s); }' % (mname, key, mname, key, expr)
+        text = text[:m.start()] + new + text[me.end():]
+        pos = m.start() + len(new)
+        cnt += 1
+    return text, cnt
+
+
+def r19_hashmap_retain(text, keys_fn='hashmap_keys_u64', get_mut_fn='hashmap_get_mut_u64'):
+    """`M.retain(|k, v| BODY);` on a HashMap (BODY may have side effects on v)  ->
+        let M_keys = hashmap_keys_u64(&M);  // trusted: a Vec holding exactly the keys, each once
+        cursor loop: let k = &M_keys[i]; let keep = match hashmap_get_mut_u64(&mut M, *k) { Some(v) => BODY, None => true }; if !keep { M.remove(k); }
+    HashMap::retain visits every entry once in an unspecified order, keeps it iff BODY returns true: so does the loop."""
+    m = re.search(r'(?m)^(\s*)(\w+)\.retain\(\|(\w+), (\w+)\|\s*', text)
+    if not m:
+        return text, 0
+    ind, mp, k, v = m.group(1), m.group(2), m.group(3), m.group(4)
+    op = text.index('(', m.start())
+    cp = match_bracket(text, op, '(', ')')
+    body = text[m.end():cp].strip()
+    me = re.compile(r'\s*;').match(text, cp + 1)
+    if not me:
+        raise RuleError('R19: retain shape')
+    new = (f'{ind}let {mp}_keys = {keys_fn}(&{mp});\n{ind}let mut {k}_nx: usize = 0;\n{ind}while {k}_nx < {mp}_keys.len()\n{ind}    /*@LOOPSPEC*/\n{ind}{{\n'
+           f'{ind}    let {k} = &{mp}_keys[{k}_nx]; {k}_nx += 1;\n'
+           f'{ind}    let keep = match {get_mut_fn}({mp}, *{k}) {{ Some({v}) => {body}, None => true }};\n'
+           f'{ind}    if !keep {{ {mp}.remove({k}); }}\n{ind}}}')
+    return text[:m.start()] + new + text[me.end():], 1
